@@ -367,10 +367,23 @@ def run_config(prog, tab, cfg):
                     r3.add(f.relfile, f.name, BASE_CHECKER, "info", "result discarded; not counted as a guard by R15.1", e["line"])
                 else:
                     r3.ok(f, BASE_CHECKER, "result used (%s)" % e.get("use"), e["line"])
-    for r in (r1, r2, r3):
+    r5 = Rule("R15.5", "the decode entry points (which install a fresh stack-limit context) are never re-entered from inside a decoder", floor=4)
+    eps = {prog.require(x["function"]).key: x["function"] for x in tab["entry_points"]}
+    dscope = cg.reachable(slot_keys)
+    for epk, epn in sorted(eps.items()):
+        callers = [k for k in sorted(dscope) if epk in cg.edges.get(k, ())]
+        if not callers:
+            r5.ok(prog.funcs[epk], "callers", "not called from any function reachable from a decoder slot", prog.funcs[epk].line)
+        for k in callers:
+            f = prog.funcs[k]
+            line = next((e["line"] for b, i, e, tg in cg.sites[k] if epk in tg), f.line)
+            r5.bad(f, epn, "%s is reachable from a decoder slot and calls the entry point %s, which copies the codec context into its own frame: "
+                           "the stack budget starts again at every nesting level and the limit never triggers" % (f.name, epn), line,
+                   witness={"call_path": cg.path(sorted(slot_keys), k)})
+    for r in (r1, r2, r3, r5):
         for i in r.insts:
             i.config = cfg
-    return [r1, r2, r3]
+    return [r1, r2, r3, r5]
 
 
 def run(ctx):
